@@ -1,7 +1,10 @@
 #!/bin/bash
 # tools/mutant.sh <patch.diff> <Cxx> [extra check args]
 # Applies a patch to a scratch worktree of /repo (never /repo itself), runs one
-# check against it, prints the verdict and removes the worktree and its build.
+# check against it, prints the verdict (VIOLATION / summary lines first, the
+# KNOWN-FINDING lines after them, 40 lines at most: C19 alone prints 21 known
+# findings, which used to push every VIOLATION line past the cut) and removes
+# the worktree and its build.
 set -u
 export GOFLAGS=-mod=mod GOPROXY=off
 PATCH="$(readlink -f "$1")"; PROP="$2"; shift 2
@@ -12,5 +15,5 @@ cleanup() { git -C /repo worktree remove --force "$WT" >/dev/null 2>&1; rm -rf "
 trap cleanup EXIT
 if ! git -C "$WT" apply "$PATCH"; then echo "PATCH-DOES-NOT-APPLY"; exit 3; fi
 ( cd "$WT" && go build ./... ) || { echo "MUTANT-DOES-NOT-BUILD"; exit 3; }
-VERIF_REPO="$WT" VERIF_BUILD="$B" VERIF_EVIDENCE_DIR="$EV" "$HERE/check" "$PROP" "$@" 2>&1 | grep -E "^(VIOLATION|KNOWN-FINDING|INCONCLUSIVE|C[0-9]+ |  key=|BUILD)" | cut -c1-300 | head -20
+VERIF_REPO="$WT" VERIF_BUILD="$B" VERIF_EVIDENCE_DIR="$EV" "$HERE/check" "$PROP" "$@" 2>&1 | grep -E "^(VIOLATION|KNOWN-FINDING|INCONCLUSIVE|C[0-9]+ |  key=|BUILD)" | cut -c1-300 | awk '/^KNOWN-FINDING/{k[++n]=$0; next} {print} END{for(i=1;i<=n;i++) print k[i]}' | head -40
 echo "exit=${PIPESTATUS[0]}"
